@@ -270,4 +270,6 @@ pub fn run(ctx: &mut Ctx) {
     ctx.floor("roles:member_capacity", 500);
     ctx.floor("roles:revoke_under_disabled_role", 200);
     ctx.floor("roles:restart_toggled", 2_000);
+    // instruction path (svm-lite world W1)
+    crate::props::c18i::run_c18_instr(ctx);
 }
